@@ -461,6 +461,14 @@ class ComplexPrior(TransformedPrior):
         real and imag may be scalars or Priors. If Priors, they must be
         pure real.
         '''
+        for part in (real, imag):
+            if isinstance(part, np.ndarray) and part.ndim == 0:
+                part = part.item()
+            if (not isinstance(part, (Real, Prior))
+                    or isinstance(part, ComplexPrior)):
+                raise TypeError(
+                    "real and imag must be real numbers or priors, not "
+                    "objects of type {}".format(type(part)))
         self.transformation = complex
         self.base_prior = [real, imag]
         self.name = name
